@@ -24,6 +24,7 @@ import (
 //     several variables in one var spec, nested Sets) and none that it does not name;
 //   - C05/C10: providers declared Async - in either nesting order with Bind - make the injector concurrent (it takes a
 //     context.Context first and starts goroutines), declarations without Async do not.
+//
 // The packages are written into a scratch copy of the repository (KVC_SCRATCH=1). Labelled bounded; never counted as proof.
 func TestVerifBoundedFrontend(t *testing.T) {
 	res := &kvcResult{Evidence: map[string]any{}}
@@ -66,6 +67,7 @@ func main() {}
 		calls    []string // providers the injector must call, each exactly once
 		nocalls  []string // providers it must not mention
 		async    bool     // the injector must be concurrent (context first, goroutines)
+		lib      string   // optional helper package <dir>/lib
 	}
 	std := "package main\n" + types_
 	cases := []tcase{
@@ -85,27 +87,34 @@ func main() {}
 			decl:     "package main\n\nimport \"github.com/mazrean/kessoku\"\n\nvar Base = kessoku.Set(kessoku.Provide(NewProdConfig))\nvar Data = kessoku.Set(Base, kessoku.Provide(NewDB), kessoku.Provide(NewCache))\n\nvar _ = kessoku.Inject[*App](\"InitApp\", Data, kessoku.Provide(NewAppDB))\n",
 			injector: "InitApp", calls: []string{"NewProdConfig", "NewDB", "NewCache", "NewAppDB"}},
 		{name: "async_inside_bind", main: std,
-			decl: "package main\n\nimport \"github.com/mazrean/kessoku\"\n\nvar _ = kessoku.Inject[*App](\"InitApp\",\n\tkessoku.Bind[Store](kessoku.Async(kessoku.Provide(NewMemStore))),\n\tkessoku.Bind[Queue](kessoku.Async(kessoku.Provide(NewMemQueue))),\n\tkessoku.Async(kessoku.Provide(NewMetrics)),\n\tkessoku.Provide(NewAppStores))\n",
+			decl:     "package main\n\nimport \"github.com/mazrean/kessoku\"\n\nvar _ = kessoku.Inject[*App](\"InitApp\",\n\tkessoku.Bind[Store](kessoku.Async(kessoku.Provide(NewMemStore))),\n\tkessoku.Bind[Queue](kessoku.Async(kessoku.Provide(NewMemQueue))),\n\tkessoku.Async(kessoku.Provide(NewMetrics)),\n\tkessoku.Provide(NewAppStores))\n",
 			injector: "InitApp", calls: []string{"NewMemStore", "NewMemQueue", "NewMetrics", "NewAppStores"}, async: true},
 		{name: "bind_inside_async", main: std,
-			decl: "package main\n\nimport \"github.com/mazrean/kessoku\"\n\nvar _ = kessoku.Inject[*App](\"InitApp\",\n\tkessoku.Async(kessoku.Bind[Store](kessoku.Provide(NewMemStore))),\n\tkessoku.Async(kessoku.Bind[Queue](kessoku.Provide(NewMemQueue))),\n\tkessoku.Provide(NewMetrics),\n\tkessoku.Provide(NewAppStores))\n",
+			decl:     "package main\n\nimport \"github.com/mazrean/kessoku\"\n\nvar _ = kessoku.Inject[*App](\"InitApp\",\n\tkessoku.Async(kessoku.Bind[Store](kessoku.Provide(NewMemStore))),\n\tkessoku.Async(kessoku.Bind[Queue](kessoku.Provide(NewMemQueue))),\n\tkessoku.Provide(NewMetrics),\n\tkessoku.Provide(NewAppStores))\n",
 			injector: "InitApp", calls: []string{"NewMemStore", "NewMemQueue", "NewMetrics", "NewAppStores"}, async: true},
 		{name: "only_bound_async", main: std,
-			decl: "package main\n\nimport \"github.com/mazrean/kessoku\"\n\nvar _ = kessoku.Inject[*App](\"InitApp\",\n\tkessoku.Bind[Store](kessoku.Async(kessoku.Provide(NewMemStore))),\n\tkessoku.Bind[Queue](kessoku.Async(kessoku.Provide(NewMemQueue))),\n\tkessoku.Provide(NewMetrics),\n\tkessoku.Provide(NewAppStores))\n",
+			decl:     "package main\n\nimport \"github.com/mazrean/kessoku\"\n\nvar _ = kessoku.Inject[*App](\"InitApp\",\n\tkessoku.Bind[Store](kessoku.Async(kessoku.Provide(NewMemStore))),\n\tkessoku.Bind[Queue](kessoku.Async(kessoku.Provide(NewMemQueue))),\n\tkessoku.Provide(NewMetrics),\n\tkessoku.Provide(NewAppStores))\n",
 			injector: "InitApp", calls: []string{"NewMemStore", "NewMemQueue", "NewMetrics", "NewAppStores"}, async: true},
 		{name: "aliased_imports",
-			main: "package main\n\nimport stdhttp \"net/http\"\n\ntype Timeout struct{}\n\nfunc NewTimeout() *Timeout { return &Timeout{} }\nfunc NewClient(t *Timeout) *stdhttp.Client { return &stdhttp.Client{} }\nfunc main() {}\n",
-			decl: "package main\n\nimport (\n\tstdhttp \"net/http\"\n\n\tk \"github.com/mazrean/kessoku\"\n)\n\nvar _ = k.Inject[*stdhttp.Client](\"InitClient\", k.Provide(NewTimeout), k.Provide(NewClient))\n",
+			main:     "package main\n\nimport stdhttp \"net/http\"\n\ntype Timeout struct{}\n\nfunc NewTimeout() *Timeout { return &Timeout{} }\nfunc NewClient(t *Timeout) *stdhttp.Client { return &stdhttp.Client{} }\nfunc main() {}\n",
+			decl:     "package main\n\nimport (\n\tstdhttp \"net/http\"\n\n\tk \"github.com/mazrean/kessoku\"\n)\n\nvar _ = k.Inject[*stdhttp.Client](\"InitClient\", k.Provide(NewTimeout), k.Provide(NewClient))\n",
 			injector: "InitClient", calls: []string{"NewTimeout", "NewClient"}},
 		{name: "own_generic_with_imported_argument",
-			main: "package main\n\nimport \"time\"\n\ntype Box[T any] struct{ v T }\ntype Service struct{}\n\nfunc NewService(b *Box[time.Duration]) *Service { return &Service{} }\nfunc main() {}\n",
-			decl: "package main\n\nimport \"github.com/mazrean/kessoku\"\n\nvar _ = kessoku.Inject[*Service](\"InitService\", kessoku.Provide(NewService))\n",
+			main:     "package main\n\nimport \"time\"\n\ntype Box[T any] struct{ v T }\ntype Service struct{}\n\nfunc NewService(b *Box[time.Duration]) *Service { return &Service{} }\nfunc main() {}\n",
+			decl:     "package main\n\nimport \"github.com/mazrean/kessoku\"\n\nvar _ = kessoku.Inject[*Service](\"InitService\", kessoku.Provide(NewService))\n",
 			injector: "InitService", calls: []string{"NewService"}},
 		{name: "argument_of_imported_type_not_imported_by_the_file",
-			main: "package main\n\nimport (\n\t\"net/url\"\n\t\"time\"\n)\n\ntype Service struct{}\n\nfunc NewService(u *url.URL, d time.Duration, m map[string][]*url.Userinfo) *Service { return &Service{} }\nfunc main() {}\n",
-			decl: "package main\n\nimport \"github.com/mazrean/kessoku\"\n\nvar _ = kessoku.Inject[*Service](\"InitService\", kessoku.Provide(NewService))\n",
+			main:     "package main\n\nimport (\n\t\"net/url\"\n\t\"time\"\n)\n\ntype Service struct{}\n\nfunc NewService(u *url.URL, d time.Duration, m map[string][]*url.Userinfo) *Service { return &Service{} }\nfunc main() {}\n",
+			decl:     "package main\n\nimport \"github.com/mazrean/kessoku\"\n\nvar _ = kessoku.Inject[*Service](\"InitService\", kessoku.Provide(NewService))\n",
 			injector: "InitService", calls: []string{"NewService"}},
 	}
+	// a provider of ANOTHER package whose parameter type comes from a package the user's package does not import, while
+	// the user's package already uses that package's name for something else: the import must be renamed AND the type
+	// spelled with the new name (main.go gets the import path of the helper package, which lives below the case's directory)
+	cases = append(cases, tcase{name: "renamed_import_of_a_transitive_type",
+		main:     "package main\n\nimport \"LIBPATH\"\n\nvar url = \"the user's own identifier called url\"\n\ntype App struct{}\n\nfunc NewApp(c *lib.Client) *App { _ = url; return &App{} }\nfunc main() {}\n",
+		decl:     "package main\n\nimport (\n\t\"github.com/mazrean/kessoku\"\n\n\t\"LIBPATH\"\n)\n\nvar _ = kessoku.Inject[*App](\"InitApp\", kessoku.Provide(lib.NewClient), kessoku.Provide(NewApp))\n",
+		injector: "InitApp", calls: []string{"lib.NewClient", "NewApp"}, lib: "package lib\n\nimport \"net/url\"\n\ntype Client struct{ u *url.URL }\n\nfunc NewClient(u *url.URL) *Client { return &Client{u} }\n"})
 	evals := 0
 	var samples []any
 	for _, c := range cases {
@@ -116,6 +125,13 @@ func main() {}
 		}
 		func() {
 			defer os.RemoveAll(dir)
+			if c.lib != "" {
+				libPath := "github.com/mazrean/kessoku/internal/kessoku/" + filepath.Base(dir) + "/lib"
+				c.main = strings.ReplaceAll(c.main, "LIBPATH", libPath)
+				c.decl = strings.ReplaceAll(c.decl, "LIBPATH", libPath)
+				_ = os.MkdirAll(filepath.Join(dir, "lib"), 0o755)
+				_ = os.WriteFile(filepath.Join(dir, "lib", "lib.go"), []byte(c.lib), 0o644)
+			}
 			fail := func(kind, detail string) {
 				res.Failures = append(res.Failures, kvcFailure{Name: kind + "[" + c.name + "]", Detail: detail, Input: map[string]any{"kessoku.go": c.decl, "main.go": c.main}})
 			}
@@ -182,6 +198,9 @@ func main() {}
 					if sel.Sel.Name == "Provide" && len(call.Args) == 1 {
 						if id, ok := call.Args[0].(*ast.Ident); ok {
 							called[id.Name]++
+						}
+						if se, ok := call.Args[0].(*ast.SelectorExpr); ok {
+							called[exprString(se)]++
 						}
 					}
 				}
